@@ -306,6 +306,55 @@ pub fn run_child(ctx: &Ctx) -> Report {
     st = st.merge(part);
     base += n_h;
 
+    // ---- (c') short parameter values: every one- and two-byte value of a Content-Type parameter (degenerate quoted
+    //      strings, lone delimiters), for the charset parameter in two spellings and for another parameter, and the
+    //      same for the Credential / SignedHeaders / Signature fields of Authorization
+    {
+        let prefixes: Vec<(&str, String)> = vec![
+            ("Content-Type", "application/x-www-form-urlencoded; charset=".into()),
+            ("Content-Type", "application/x-www-form-urlencoded;CHARSET=".into()),
+            ("Content-Type", "application/json; charset=".into()),
+            ("Content-Type", "application/x-www-form-urlencoded; boundary=".into()),
+            ("Content-Type", "application/x-www-form-urlencoded; charset=utf-8; x=".into()),
+            ("Authorization", "AWS4-HMAC-SHA256 Credential=AKIDEXAMPLE/20150830/us-east-1/service/aws4_request, SignedHeaders=host;x-amz-date, Signature=".into()),
+            ("Authorization", "AWS4-HMAC-SHA256 Signature=00, SignedHeaders=host;x-amz-date, Credential=".into()),
+            ("Authorization", "AWS4-HMAC-SHA256 Signature=00, Credential=AKIDEXAMPLE/20150830/us-east-1/service/aws4_request, SignedHeaders=".into()),
+            ("Authorization", "AWS4-HMAC-SHA256 ".into()),
+        ];
+        let nb = hv_bytes.len() as u64;
+        let per = 1 + nb + nb * nb;
+        let n_s = prefixes.len() as u64 * per;
+        let b = base;
+        let part = par_sweep(n_s, |i, st| {
+            let (name, pre) = &prefixes[(i / per) as usize];
+            let k = i % per;
+            let mut v = pre.as_bytes().to_vec();
+            if k >= 1 && k <= nb {
+                v.push(hv_bytes[(k - 1) as usize]);
+            } else if k > nb {
+                let kk = k - 1 - nb;
+                v.push(hv_bytes[(kk / nb) as usize]);
+                v.push(hv_bytes[(kk % nb) as usize]);
+            }
+            let mut w = base_wire.clone();
+            if let Some(h) = w.headers.iter_mut().find(|h| h.0.eq_ignore_ascii_case(name)) {
+                h.1 = v;
+            } else {
+                w.headers.insert(1, (name.to_string(), v));
+            }
+            let mut cfg = Cfg::basic(now);
+            cfg.fold = i % 2 == 0;
+            cfg.s3 = i % 4 >= 2;
+            if *name == "Content-Type" {
+                w.method = "POST".into();
+                w.body = b"a=1&b=2".to_vec();
+            }
+            total(b + i, "short-parameter-value", w, &cfg, &std_prov, st);
+        });
+        st = st.merge(part);
+        base += n_s;
+    }
+
     // ---- (d) bodies
     let mut lens: Vec<usize> = vec![0, 1, 2, 3, 1000];
     lens.extend(21838..=21852);
@@ -633,7 +682,7 @@ pub fn run_child(ctx: &Ctx) -> Report {
     Report {
         stats: st,
         rule: format!(
-            "every case runs under catch_unwind inside a child process (abnormal termination = violation), with overflow checks and debug assertions on, alternately with log formatting on, against a strict key provider (panics when called without readiness; not ready at once / answer pending for a share of the cases): (a) the C13 defect product on both carriers x {{default,S3,fold}} x 3 requirement sets (incl. non-ASCII and empty names); (b) every printable ASCII byte substituted and inserted at every position of 5 URI templates, every two-character escape %c1c2 over 94^2 in path, query value and query name, 40 special URIs (asterisk-, authority-, absolute-form, truncated escapes, 40-60 kB paths / queries) x 2 carriers x 3 options; (b') 45 request targets of every form (origin, absolute, authority incl. bare host and IPv6, asterisk, empty, fragment, scheme without path) x 6 form bodies x 3 content types x {{default,S3,fold,S3+fold}} x carrier, so that the target is rebuilt under form folding; (c) every byte HeaderValue admits (tab, 0x20-0x7E, 0x80-0xFF) substituted and inserted at every{} position of Authorization / X-Amz-Date / Date / Content-Type / token values; (d) bodies of {} lengths (around 21845, 32768, 65535, up to 200000) x 8 fills (expanding bytes, pairs, UTF-8, separators, escapes) x 11 content types x fold x carrier; all 256 one-byte and every {}th two-byte body as a UTF-8 form; {} charset labels x all one-byte, every {}th two-byte and 4 special bodies; (e) 9 capacities x secret lengths 0..100 x 4 fills; (f) every C16 timestamp string on both carriers and through the unstable API; (g) every subset of set fields of the three builders; (h) every SignatureError shape x 4 messages through Display/Debug/source/code/status/From<Box>; (i) derivation with empty / non-ASCII / 10 kB scopes and NaiveDate::MIN/MAX/year 0/-1/10000; canonicalisation helpers on degenerate and 1 MiB inputs. Oracle: a value or an error, never a panic, abort, hang or non-SignatureError. states = (sweep, outcome class)",
+            "every case runs under catch_unwind inside a child process (abnormal termination = violation), with overflow checks and debug assertions on, alternately with log formatting on, against a strict key provider (panics when called without readiness; not ready at once / answer pending for a share of the cases): (a) the C13 defect product on both carriers x {{default,S3,fold}} x 3 requirement sets (incl. non-ASCII and empty names); (b) every printable ASCII byte substituted and inserted at every position of 5 URI templates, every two-character escape %c1c2 over 94^2 in path, query value and query name, 40 special URIs (asterisk-, authority-, absolute-form, truncated escapes, 40-60 kB paths / queries) x 2 carriers x 3 options; (b') 45 request targets of every form (origin, absolute, authority incl. bare host and IPv6, asterisk, empty, fragment, scheme without path) x 6 form bodies x 3 content types x {{default,S3,fold,S3+fold}} x carrier, so that the target is rebuilt under form folding; (c) every byte HeaderValue admits (tab, 0x20-0x7E, 0x80-0xFF) substituted and inserted at every{} position of Authorization / X-Amz-Date / Date / Content-Type / token values; (c') every empty, one-byte and two-byte value of a Content-Type parameter (charset in two spellings, boundary, a trailing parameter; form and JSON types) and of the Credential / SignedHeaders / Signature fields; (d) bodies of {} lengths (around 21845, 32768, 65535, up to 200000) x 8 fills (expanding bytes, pairs, UTF-8, separators, escapes) x 11 content types x fold x carrier; all 256 one-byte and every {}th two-byte body as a UTF-8 form; {} charset labels x all one-byte, every {}th two-byte and 4 special bodies; (e) 9 capacities x secret lengths 0..100 x 4 fills; (f) every C16 timestamp string on both carriers and through the unstable API; (g) every subset of set fields of the three builders; (h) every SignatureError shape x 4 messages through Display/Debug/source/code/status/From<Box>; (i) derivation with empty / non-ASCII / 10 kB scopes and NaiveDate::MIN/MAX/year 0/-1/10000; canonicalisation helpers on degenerate and 1 MiB inputs. Oracle: a value or an error, never a panic, abort, hang or non-SignatureError. states = (sweep, outcome class)",
             if thorough { "" } else { " (every 3rd for Authorization)" }, lens.len(), two_stride, LABELS.len(), label_stride
         ),
         bounds: json!({"cases": base}),
